@@ -12,6 +12,7 @@ CONSTANTS
   MaxMarks = 0
   PropAllowed = TRUE
   SetAllAllowed = TRUE
+  LateEdges = TRUE
   RoundNodes <- RN_3_2
 INIT MCInit
 NEXT MCNext
